@@ -236,6 +236,12 @@ def rule_r5(ctx):
         fixed = node.fields["name"].facts.get("value") if "name" in node.fields else None
         for n in name_tests:
             consulted_names.add(n)
+        if fixed in IMPLICIT_CLASSMETHODS and is_method and is_method[0] and not wraps:
+            rr.fail(
+                f"C12-R5|{fixed}|not-wrapped-on-some-path",
+                f"PendingFunctionDef.get_result: on the path [{short_ctx(pr, 140)}] the method `{fixed}` is not passed through classmethod(): type.__new__ makes it a class method whenever the (decorated) attribute is a plain function, e.g. under a tracing decorator built with functools.wraps; stored as a plain function, `cls` is not bound (TypeError on subclass creation / subscription)",
+                what=f"wrap|every-path|{fixed}",
+            )
         if wraps:
             # Python makes these methods class methods AFTER the decorators have been applied
             stores = [e for e in evs if e.kind == "store" and isinstance(e.extra.get("name"), UPrim) and e.extra["name"].field == "name"]
@@ -300,4 +306,22 @@ def rule_c06r4(ctx):
     return rr
 
 
-RULES = [("C12-R1", rule_r1), ("C12-R2", rule_r23), ("C12-R4", rule_r4), ("C12-R5", rule_r5), ("C12-R6", rule_c06r6), ("C06-R4", rule_c06r4)]
+def rule_c07r2(ctx):
+    """Decorators, bases and keywords of a class statement are evaluated before the body, in order
+    (instance of C07-R1/R2 for ClassDef): a decorator looked up after the body sees a rebound name."""
+    from .c07 import rule_r1 as c07r1, rule_r2 as c07r2
+
+    rr = RuleResult("C07-R2", "class header evaluated once, in order, before the body (instance of C07-R1/R2)")
+    rr.floor = 1
+    for src in (c07r1(ctx), c07r2(ctx)):
+        for f in src.findings:
+            if "|ClassDef|" in f.key:
+                rr.fail(f.key, f.msg, where=f.where)
+        for w in sorted(map(str, src.nontrivial)):
+            if w.startswith("ClassDef"):
+                rr.instances += 1
+                rr.ok(w)
+    return rr
+
+
+RULES = [("C07-R2", rule_c07r2), ("C12-R1", rule_r1), ("C12-R2", rule_r23), ("C12-R4", rule_r4), ("C12-R5", rule_r5), ("C12-R6", rule_c06r6), ("C06-R4", rule_c06r4)]
